@@ -130,7 +130,13 @@ func (ce *convergenceElem) activate() (successful, retry bool) {
 		}).Info("Failed to start CLA")
 
 		if claRetry {
-			atomic.AddInt32(&ce.ttl, -1)
+			// Count down, but never below zero: a negative ttl means "active". A permanent
+			// CLA is retried with a ttl of zero; decrementing it would report a CLA that
+			// failed to start as active, stop further retries and let deactivate close its
+			// nil stop channels.
+			if atomic.LoadInt32(&ce.ttl) > 0 {
+				atomic.AddInt32(&ce.ttl, -1)
+			}
 		} else {
 			atomic.StoreInt32(&ce.ttl, 0)
 		}
